@@ -37,20 +37,22 @@ def build_lib(features=()):
         p = subprocess.run(cmd, cwd=facts.REPO, env=facts.cargo_env({"CARGO_TARGET_DIR": tgt, "RUSTFLAGS": "-Awarnings"}), capture_output=True, text=True)
         if p.returncode != 0:
             raise facts.BuildError("cargo build failed:\n" + p.stderr[-3000:])
-        os.makedirs(out, exist_ok=True)
-        shutil.copy(os.path.join(tgt, "debug", "libcircular_buffer.rlib"), rlib)
-        if os.path.exists(os.path.join(out, "deps")):
-            shutil.rmtree(os.path.join(out, "deps"))
-        os.makedirs(os.path.join(out, "deps"))
+        stage = out + ".%d.stage" % os.getpid()
+        os.makedirs(os.path.join(stage, "deps"), exist_ok=True)
+        shutil.copy(os.path.join(tgt, "debug", "libcircular_buffer.rlib"), os.path.join(stage, "libcircular_buffer.rlib"))
         for fn in os.listdir(os.path.join(tgt, "debug", "deps")):
             if fn.endswith(".rlib") or fn.endswith(".rmeta"):
                 if not fn.startswith("libcircular_buffer"):
-                    shutil.copy(os.path.join(tgt, "debug", "deps", fn), os.path.join(out, "deps", fn))
+                    shutil.copy(os.path.join(tgt, "debug", "deps", fn), os.path.join(stage, "deps", fn))
+        try:
+            os.rename(stage, out)  # atomic publish; a concurrent builder may have won
+        except OSError:
+            shutil.rmtree(stage, ignore_errors=True)
     finally:
         shutil.rmtree(tgt, ignore_errors=True)
     # keep only a few libs
     libs = sorted([d for d in os.listdir(facts.CACHE) if d.startswith("lib-")], key=lambda d: os.path.getmtime(os.path.join(facts.CACHE, d)))
-    for d in libs[:-6]:
+    for d in libs[:-40]:
         shutil.rmtree(os.path.join(facts.CACHE, d), ignore_errors=True)
     return rlib, os.path.join(out, "deps")
 
